@@ -194,12 +194,31 @@ def combo_name(k: int) -> str:
     return f"sys{cs_}{'+dosdir' if ea & 0x10 else ''}{'+S_IFDIR' if ea >> 16 else ''}"
 
 
-def zipinfos(es, attrs=None):
+NAME_MODES = ["unique", "all-same", "pairs", "default-NoName", "later-repeats-first"]
+
+
+def entry_name(i: int, d: bool, mode: int) -> str:
+    """Names never decide anything but the trailing slash; every mode keeps d <-> trailing slash."""
+    if mode == 1:
+        stem = "dup.bin"
+    elif mode == 2:
+        stem = f"f{i // 2}.bin"
+    elif mode == 3:
+        stem = "NoName"                      # zipfile.ZipInfo()'s default filename
+    elif mode == 4:
+        stem = "f0.bin" if i % 2 else f"f{i}.bin"
+    else:
+        stem = f"f{i}.bin"
+    return (stem.replace(".bin", "") + "/") if d else stem
+
+
+def zipinfos(es, attrs=None, names_mode: int = 0):
     """ZipInfo objects for (fs, cs, d) entries: d decides ONLY the trailing slash of the name; create_system and
-    external_attr run through all 8 combinations (DOS directory bit x unix S_IFDIR x system), independently of d."""
+    external_attr run through all 8 combinations (DOS directory bit x unix S_IFDIR x system), independently of d;
+    names_mode picks unique / repeated member names (every record counts, whatever it is called)."""
     out = []
     for i, (fs, cs, d) in enumerate(es):
-        zi = zipfile.ZipInfo(f"d{i}/" if d else f"f{i}.bin")
+        zi = zipfile.ZipInfo(entry_name(i, d, names_mode))
         zi.file_size = fs
         zi.compress_size = cs
         k = attrs[i] if attrs is not None else (i + fs + cs) % 8
@@ -208,11 +227,11 @@ def zipinfos(es, attrs=None):
     return out
 
 
-def impl_validate(zb, L, es, attrs=None) -> int:
+def impl_validate(zb, L, es, attrs=None, names_mode: int = 0) -> int:
     """0 = returned, 1 = ExtractionZipBombError, 2 = OverflowError, otherwise the exception name."""
     from sharepoint2text.parsing.exceptions import ExtractionZipBombError
     try:
-        r = zb.validate_zipfile(FakeZip(zipinfos(es, attrs)), limits=L, source="verif")
+        r = zb.validate_zipfile(FakeZip(zipinfos(es, attrs, names_mode)), limits=L, source="verif")
         return 0 if r is None else "returned:" + repr(r)
     except ExtractionZipBombError:
         return 1
@@ -435,6 +454,23 @@ def forge(data: bytes, sizes: dict[int, tuple[int, int]], extra_dirs: int = 0, a
     return bytes(b)
 
 
+def dup_record(data: bytes, i: int, sizes: tuple[int, int] | None = None) -> bytes:
+    """Append a copy of central-directory record i (same member NAME, same local header) at the end of the central
+    directory, optionally with forged (file_size, compress_size): zipfile's NameToInfo then points at this LAST record."""
+    recs, (eocd, cd_off, cd_size, count) = central_records(data)
+    p = recs[i][0]
+    end = recs[i + 1][0] if i + 1 < len(recs) else cd_off + cd_size
+    rec = bytearray(data[p:end])
+    if sizes is not None:
+        rec[20:24] = struct.pack("<I", sizes[1])
+        rec[24:28] = struct.pack("<I", sizes[0])
+    b = bytearray(data[:cd_off + cd_size]) + rec + bytearray(data[cd_off + cd_size:])
+    e2 = eocd + len(rec)
+    b[e2 + 8:e2 + 12] = struct.pack("<HH", count + 1, count + 1)
+    b[e2 + 12:e2 + 16] = struct.pack("<I", cd_size + len(rec))
+    return bytes(b)
+
+
 def zip_entries(data: bytes):
     """What zipfile (the oracle) makes of the container: (opens, entries | None, pos_open, pos_close)."""
     bio = io.BytesIO(data)
@@ -653,15 +689,21 @@ def forged_variants(data: bytes, default, thorough: bool):
     out.append(("attr-all-files-dirbits-plain", forge(data, {}, attrs={i: 7 for i in files})))
     out.append(("attr-dosdir-single+1", forge(data, {f0: (S + 1, S // ER + 2)}, attrs={f0: 2})) if S + 1 < 2 ** 32 else ("plain2", data))
     out.append(("attr-dosdir-zero", forge(data, {f0: (1, 0)}, attrs={f0: 2})))
+    # a member name listed twice: zipfile reads the LAST record of a name, the guard must look at every record
+    out.append(("dup-name-last-bomb", dup_record(data, f0, (ER * 7 + 1, 7))))
+    out.append(("dup-name-last-zero", dup_record(data, f0, (1, 0))))
+    out.append(("dup-name-first-bomb", forge(dup_record(data, f0, None), {f0: (ER * 7 + 1, 7)})))
+    out.append(("dup-name-plain", dup_record(data, f0, None)))
     # a directory entry with absurd sizes must be ignored
     out.append(("dir-absurd", forge(forge(data, {}, extra_dirs=1), {len(recs): (2 ** 32 - 2, 0)})))
     return out
 
 
-def run_extractor(fn, data: bytes, name: str):
+def run_extractor(fn, data, name: str):
+    """data: bytes (a fresh io.BytesIO is made) or an io.BytesIO to be used as it is."""
     from sharepoint2text.parsing.exceptions import ExtractionZipBombError
     try:
-        for _ in fn(io.BytesIO(data), name):
+        for _ in fn(data if isinstance(data, io.BytesIO) else io.BytesIO(data), name):
             pass
         return "ok"
     except ExtractionZipBombError:
@@ -875,6 +917,135 @@ def attr_probe_cases(zb):
     return out
 
 
+# ============================================================================ sessions: many calls, one process, one buffer
+def guard_call(zb, ZipContext, buf, op, L):
+    from sharepoint2text.parsing.exceptions import ExtractionZipBombError
+    from sharepoint2text.parsing.extractors.util import encryption
+    try:
+        if op == "validate_zip_bytesio":
+            zb.validate_zip_bytesio(buf, limits=L, source="verif")
+        elif op == "open_zipfile":
+            zb.open_zipfile(buf, limits=L, source="verif").close()
+        elif op == "ZipContext":
+            ZipContext(buf).close()
+        else:
+            return "enc:" + str(encryption.is_odf_encrypted(buf))
+        return 0
+    except ExtractionZipBombError:
+        return 1
+    except OverflowError:
+        return 2
+    except zipfile.BadZipFile:
+        return 3
+    except Exception as e:  # noqa
+        return type(e).__name__
+
+
+def refill(buf: io.BytesIO, content: bytes, pos: int):
+    """the usual reusable download buffer: same object, new content"""
+    buf.seek(0)
+    buf.truncate(0)
+    buf.write(content)
+    buf.seek(pos)
+
+
+def guard_sessions(ctx, zb, ZipContext, pre):
+    rng = ctx.rng
+    default = zb.DEFAULT_ZIP_BOMB_LIMITS
+    low = zb.ZipBombLimits(3, 1000, 400, 10.0, 20.0)
+    lims = {"default": default, "low": low}
+    base = make_zip([("a.txt", b"A" * 300), ("b/", b""), ("c.bin", bytes(range(256)) * 2)])
+    base2 = make_zip([("x", b"hello"), ("y", b"")], deflate=False)
+    contents = {"base": base, "base2": base2, "bomb-default": forge(base, {0: (500 * 9 + 1, 9)}),
+                "zero": forge(base, {2: (1, 0)}), "bomb-low-only": forge(base2, {0: (401, 401)}), "notzip": b"no zip here"}
+    oracles = {k: zip_entries(v) for k, v in contents.items()}
+    steps = [(c, op, ln) for c in contents for op, lns in (("validate_zip_bytesio", ("default", "low")), ("open_zipfile", ("default", "low")),
+                                                           ("ZipContext", ("default",)), ("is_odf_encrypted", ("default",)))
+             for ln in lns]
+    fresh = {}
+    for c, op, ln in steps:
+        fresh[(c, op, ln)] = guard_call(zb, ZipContext, io.BytesIO(contents[c]), op, lims[ln])
+    sessions = [[a, b] for a in steps for b in steps]
+    for _ in range(ctx.n(150, 1500)):
+        sessions.append([rng.choice(steps) for _ in range(rng.randint(3, 5))])
+    scases, sinfo = [], []
+    for si, sess in enumerate(sessions):
+        mode = "reused" if si % 4 else "fresh-objects"     # 3 of 4 sessions reuse ONE io.BytesIO object
+        buf = io.BytesIO()
+        got = []
+        for j, (c, op, ln) in enumerate(sess):
+            if mode == "reused":
+                refill(buf, contents[c], rng.randint(0, len(contents[c])))
+            else:
+                buf = io.BytesIO(contents[c])           # the previous object is dropped: ids may be recycled
+            r = guard_call(zb, ZipContext, buf, op, lims[ln])
+            got.append(r)
+            want = fresh[(c, op, ln)]
+            if r != want:
+                pc, pop, pln = sess[j - 1] if j else ("-", "-", "-")
+                ctx.finding(f"history-dependent:{op}[{ln}]:after:{pop}[{pln}]:{'same' if pc == c else 'new'}-content:{mode}",
+                            f"{op}(limits={ln}) on content {c!r} gives {r} after the calls {sess[:j]} on "
+                            f"{'the same io.BytesIO object' if mode == 'reused' else 'fresh buffers'}, but {want} on its own: "
+                            f"the guard's decision depends on earlier calls, not on the bytes and limits of this call",
+                            {"session": sess[:j + 1], "mode": mode, "contents": {k: contents[k] for k, _, _ in sess[:j + 1]},
+                             "got": r, "alone": want})
+        ctx.case(("session", mode, tuple(sess)), True, kind=f"session:{mode}:{len(sess)}")
+        calls, codes = [], []
+        for (c, op, ln), r in zip(sess, got):
+            if op == "is_odf_encrypted":
+                continue
+            opens, es, p1, p2 = oracles[c]
+            infos = "None" if es is None else "(Some " + entries_coq(es) + ")"
+            o = f"(mkO {'true' if opens else 'false'} {infos} {p1} {p2})"
+            ctor = {"validate_zip_bytesio": f"CValidateBytesio {limits_coq(lims[ln])} 0 {o}",
+                    "open_zipfile": f"COpenZipfile {limits_coq(lims[ln])} {o}", "ZipContext": f"CZipContext {limits_coq(default)} {o}"}[op]
+            calls.append(ctor)
+            codes.append(str(r if r in (0, 1, 2, 3) else 9))
+        scases.append("([" + "; ".join(calls) + "], [" + "; ".join(codes) + "])")
+        sinfo.append((mode, sess, got))
+    pres = pre + "From S2T Require Import C11.ModelSession.\n"
+    oks, fsn, logs = coq_eval_shards(ctx, "session", pres, "corr_session", scases, shard=300, ty="list call * list Z")
+    ctx.obligation("correspondence:model run_session (stateless map of the single-call semantics) == call sequences on one reused "
+                   "io.BytesIO / on fresh buffers, limits varied between calls", oks and not fsn,
+                   (f"{len(fsn)} disagreements, first: {sinfo[fsn[0]] if fsn else ''} " + logs)[:1200])
+    ctx.traces += len(scases)
+    ctx.disagreements += len(fsn)
+    ctx.extra["sessions"] = {"pairs_exhaustive": len(steps) ** 2, "steps": len(steps), "random_longer": len(sessions) - len(steps) ** 2,
+                             "sampled": "all ordered pairs of (6 contents x 6 op/limit combinations) + random sessions of length 3-5; "
+                                        "3 of 4 sessions on one reused BytesIO object"}
+
+
+def extractor_sessions(ctx, mon, default, traces):
+    """Each extractor three times on ONE io.BytesIO: accepted fixture, then a rejected variant written into the same object,
+    then the fixture again; and the rejected one first.  Every step must do what it does on a fresh buffer."""
+    for fmt, fn, fixtures in container_extractors():
+        fx = fixtures[0]
+        plain = fx.read_bytes()
+        variants = dict(forged_variants(plain, default, False))
+        for bad in ("entry-ratio+1", "zero-compressed"):
+            if bad not in variants:
+                continue
+            for order in (("plain", bad, "plain"), (bad, "plain", bad)):
+                alone = {k: run_extractor(fn, plain if k == "plain" else variants[k], fx.name) for k in set(order)}
+                buf = io.BytesIO()
+                mon.record()
+                for j, k in enumerate(order):
+                    refill(buf, plain if k == "plain" else variants[k], 0)
+                    out = run_extractor(fn, buf, fx.name)
+                    if out != alone[k]:
+                        ctx.finding(f"history-dependent:{fmt}:{k}:after:{order[j - 1] if j else '-'}",
+                                    f"{fn.__name__} on variant {k!r} of {fx.name} written into a reused io.BytesIO gives {out} after "
+                                    f"{list(order[:j])}, but {alone[k]} on a fresh buffer",
+                                    {"fixture": str(fx), "order": order[:j + 1], "got": out, "alone": alone[k]})
+                ev = mon.stop()
+                traces.append(ev)
+                ctx.case(("extractor-session", fmt, bad, order), True, kind=f"extractor-session:{fmt}")
+                if not trace_dominated(ev):
+                    ctx.finding(f"read-before-validate:{fmt}:reused-buffer", f"{fn.__name__} read a member of a container that was never "
+                                f"validated in a session {order} on one reused io.BytesIO: {ev[:10]}",
+                                {"fixture": str(fx), "order": order, "events": ev})
+
+
 # ============================================================================ the check
 def gen_limits(ctx, zb):
     L = zb.DEFAULT_ZIP_BOMB_LIMITS
@@ -932,7 +1103,7 @@ def run(ctx):
     ctx.prove("C11/Props.v", ["C11/Proofs.vo", "C11/ProofsNames.vo"], expected=[
         "C11_rejects_iff", "C11_accepts_iff", "C11_never_overflows", "C11_ratio_exact", "C11_float_gt_sound", "C11_reject_sound_all_limits", "C11_dirs_ignored",
         "C11_count_counts_dirs", "C11_position_preserved", "C11_validate_dominates_reads",
-        "C11_read_implies_accepted", "C11_trace_ok_sound", "C11_attrs_irrelevant", "C11_file_member_never_ignored", "C11_rejects_iff_unrestricted_refuted",
+        "C11_read_implies_accepted", "C11_trace_ok_sound", "C11_attrs_irrelevant", "C11_file_member_never_ignored", "C11_names_irrelevant", "C11_session_history_independent", "C11_rejects_iff_unrestricted_refuted",
         "C11_overflow_unrestricted_refuted"])
     ctx.prove("C11/Inst.v", ["Gen/C11Limits.vo", "C11/Corr.vo", "C11/Proofs.vo"], expected=[
         "C11_default_limits_exact", "C11_default_guard_exact"])
@@ -980,11 +1151,21 @@ def run(ctx):
         if h in seen:
             continue
         seen.add(h)
-        got = impl_validate(zb, L, flat)
+        nmode = 0 if len(flat) > 3000 else len(seen) % len(NAME_MODES)
+        got = impl_validate(zb, L, flat, names_mode=nmode)
         nontriv = near_threshold(L, flat)
-        ctx.case((name, h[1]), nontriv, kind=f"validate:{name}:{kind}")
+        ctx.case((name, h[1], nmode), nontriv, kind=f"validate:{name}:{kind}")
+        ctx.count(f"names:{NAME_MODES[nmode]}")
         exact = limits_exact(L) and all(fs >= 0 and cs >= 0 for fs, cs, d in flat if not d)
         clauses = bomb_clauses(L, flat)
+        if nmode and got in (0, 1) and exact and (got == 1) != bool(clauses) and impl_validate(zb, L, flat) == (1 if clauses else 0):
+            # the same sizes under unique names are decided correctly: a record was judged by its NAME
+            nms = [z.filename for z in zipinfos(flat, None, nmode)]
+            ctx.finding(f"record-judged-by-name:{NAME_MODES[nmode]}:{'+'.join(clauses) or 'no-clause'}",
+                        f"validate_zipfile {'rejects' if got else 'accepts'} entries {list(zip(nms, flat))[:8]} (limits {name}) but the "
+                        f"exact predicate over ALL records says {clauses or 'no clause holds'}; with unique names the same sizes are "
+                        f"decided correctly: records with a repeated member name are not all checked (zipfile reads the LAST record of a name)",
+                        {"limits": repr(L), "names": nms[:200], "entries": flat[:200], "clauses": clauses, "got": got})
         # property oracle on the implementation
         if got not in (0, 1, 2):
             ctx.finding(f"validate-raises:{got}", f"validate_zipfile raised/returned {got} on limits {name} entries {flat[:6]}",
@@ -1086,6 +1267,9 @@ def run(ctx):
         containers.append((f"tratio{d:+d}", forge(base, {0: (100, 10), 2: (100 + d, 10)})))
         containers.append((f"count{d:+d}", forge(base, {}, extra_dirs=max(0, d))))
     containers.append(("zero", forge(base, {2: (1, 0)})))
+    containers.append(("dup-last-eratio+1", dup_record(base, 0, (20 * 9 + 1, 9))))
+    containers.append(("dup-last-single+1", dup_record(base2, 0, (401, 401))))
+    containers.append(("dup-plain", dup_record(base2, 0, None)))
     for k in (2, 5, 7):
         containers.append((f"attr{k}-file-eratio+1", forge(base, {0: (20 * 9 + 1, 9), 2: (5, 5)}, attrs={0: k})))
         containers.append((f"attr{k}-file-plain", forge(base, {}, attrs={0: k, 2: k})))
@@ -1152,6 +1336,7 @@ def run(ctx):
     ctx.traces += len(bcases)
     ctx.disagreements += len(fb)
 
+    guard_sessions(ctx, zb, ZipContext, pre)
     lap("bytesio")
     # ------------------------------------------------------------------ monitor: ZipContext programs and the extractors
     mon = Monitor().install()
@@ -1164,6 +1349,7 @@ def run(ctx):
                   ("single+0", forge(base, {0: (S, S // 400)})), ("eratio+1", forge(base, {0: (500 * 9 + 1, 9)})),
                   ("eratio+0", forge(base, {0: (500 * 9, 9)})), ("zero", forge(base, {2: (1, 0)})),
                   ("attr-dosdir-eratio+1", forge(base, {0: (500 * 9 + 1, 9)}, attrs={0: 2})),
+                  ("dup-last-eratio+1", dup_record(base, 0, (500 * 9 + 1, 9))), ("dup-plain", dup_record(base, 0, None)),
                   ("attr-all-dirbits-plain", forge(base, {}, attrs={0: 7, 2: 7})),
                   ("tratio+1", forge(base, {0: (2001, 10), 2: (2000, 10)})), ("tratio+0", forge(base, {0: (2000, 10), 2: (2000, 10)}))]
         opnames = ["read_bytes", "read_text", "read_xml_root", "open_stream", "exists", "namelist", "close"]
@@ -1255,6 +1441,7 @@ def run(ctx):
                         if not clauses and out == "bomb":
                             ctx.finding(f"extractor-rejects-nonbomb:{fmt}:{vname}", f"{fn.__name__} raised the zip-bomb error although "
                                         f"no clause holds ({fx.name}, {vname})", {"fixture": str(fx), "variant": vname, "outcome": out})
+        extractor_sessions(ctx, mon, default, traces)
         lap("extractors")
         ctx.obligation("monitor:all 9 ZIP-container extractors exercised", len(seen_fmt) == 9, f"{sorted(seen_fmt)}")
         tcases = [trace_coq(t) for t in traces]
